@@ -377,7 +377,9 @@ func parseStatusIntFromUnstructured(object *unstructured.Unstructured, field str
 func parseStatusStringFromUnstructured(object *unstructured.Unstructured, field string) string {
 	value, found, err := unstructured.NestedFieldNoCopy(object.Object, "status", field)
 	if err == nil && found {
-		return value.(string)
+		if s, ok := value.(string); ok {
+			return s
+		}
 	}
 	return ""
 }
